@@ -1,0 +1,93 @@
+//go:build verif
+
+package tls
+
+import "fmt"
+
+// Verification hooks (build tag verif): read-only dumps of the negotiation
+// tables and thin wrappers around unexported negotiation helpers.
+
+// ZVSuite is a flat view of a cipherSuite table row.
+type ZVSuite struct {
+	ID                    uint16
+	KeyLen, MacLen, IVLen int
+	Flags                 int
+	KA                    string // rsa | ecdhe-rsa | ecdhe-ecdsa | dhe-rsa | dhe-dss | other:<type>
+	Kind                  string // aead | cbc | stream
+}
+
+func zvKA(c *cipherSuite) string {
+	switch k := c.ka(VersionTLS12).(type) {
+	case *rsaKeyAgreement:
+		return "rsa"
+	case *ecdheKeyAgreement:
+		if k.isRSA {
+			return "ecdhe-rsa"
+		}
+		return "ecdhe-ecdsa"
+	case *dheKeyAgreement:
+		if k.auth != nil {
+			if s, ok := k.auth.(*signedKeyAgreement); ok && s.sigType == signatureDSA {
+				return "dhe-dss"
+			}
+		}
+		return "dhe-rsa"
+	default:
+		return fmt.Sprintf("other:%T", k)
+	}
+}
+
+func zvSuites(l []*cipherSuite) []ZVSuite {
+	out := make([]ZVSuite, 0, len(l))
+	for _, c := range l {
+		kind := "stream"
+		if c.aead != nil {
+			kind = "aead"
+		} else if c.ivLen > 0 {
+			kind = "cbc"
+		}
+		out = append(out, ZVSuite{c.id, c.keyLen, c.macLen, c.ivLen, c.flags, zvKA(c), kind})
+	}
+	return out
+}
+
+// ZVCipherSuites dumps the client-advertisable table, ZVImplementedCipherSuites the full one.
+func ZVCipherSuites() []ZVSuite            { return zvSuites(cipherSuites) }
+func ZVImplementedCipherSuites() []ZVSuite { return zvSuites(implementedCipherSuites) }
+
+func ZVCipherSuitesTLS13() []uint16 {
+	var out []uint16
+	for _, c := range cipherSuitesTLS13 {
+		out = append(out, c.id)
+	}
+	return out
+}
+
+func ZVSuiteFlagBits() map[string]int {
+	return map[string]int{"ECDHE": suiteECDHE, "ECSign": suiteECSign, "TLS12": suiteTLS12, "SHA384": suiteSHA384,
+		"DefaultOff": suiteDefaultOff, "DSS": suiteDSS, "Export": suiteExport, "Anon": suiteAnon, "PSK": suitePSK}
+}
+
+func ZVSupportedVersions() []uint16         { return append([]uint16(nil), supportedVersions...) }
+func ZVDefaultCipherSuites() []uint16       { return append([]uint16(nil), defaultCipherSuites()...) }
+func ZVDefaultCipherSuitesTLS13() []uint16  { return append([]uint16(nil), defaultCipherSuitesTLS13()...) }
+func ZVHasAESGCMHardwareSupport() bool      { return hasAESGCMHardwareSupport }
+func ZVDeprioritizeAES(l []uint16) []uint16 { return deprioritizeAES(l) }
+func ZVAesgcmPreferred(l []uint16) bool     { return aesgcmPreferred(l) }
+func ZVDowngradeCanaries() (string, string) { return downgradeCanaryTLS12, downgradeCanaryTLS11 }
+func ZVDefaultCurvePreferences() []CurveID  { return append([]CurveID(nil), defaultCurvePreferences...) }
+
+func ZVMutualVersion(c *Config, peer []uint16) (uint16, bool) { return c.mutualVersion(peer) }
+func ZVConfigSupportedVersions(c *Config) []uint16            { return c.supportedVersions() }
+func ZVMutualProtocol(protos, pref []string) string           { return mutualProtocol(protos, pref) }
+
+// ZVSelectCipherSuite runs selectCipherSuite with the server-side usability filter
+// computed from the given handshake facts (the fields cipherSuiteOk reads).
+func ZVSelectCipherSuite(ids, supported []uint16, vers uint16, ecdheOk, ecSignOk, rsaSignOk, rsaDecryptOk bool) (uint16, bool) {
+	hs := &serverHandshakeState{c: &Conn{vers: vers}, ecdheOk: ecdheOk, ecSignOk: ecSignOk, rsaSignOk: rsaSignOk, rsaDecryptOk: rsaDecryptOk}
+	s := selectCipherSuite(ids, supported, hs.cipherSuiteOk)
+	if s == nil {
+		return 0, false
+	}
+	return s.id, true
+}
